@@ -1,19 +1,15 @@
-(* C09 — the executable specification accepts the model's output for writer and builder cases. *)
+(* C09 — the executable specification accepts the model's output for every case of every kind. *)
 From Coq Require Import List NArith Bool.
 Import ListNotations.
-Require Import MV.C09.Model MV.C09.Spec MV.C09.WModel MV.C09.WSpec MV.C09.XExec MV.C09.Compose MV.C09.WProofs.
+Require Import MV.C09.Model MV.C09.Spec MV.C09.WModel MV.C09.WSpec MV.C09.XExec MV.C09.Compose MV.C09.WProofs
+               MV.C09.FlushProofs.
 Require MV.C09.Exec.
 Open Scope N_scope.
 
-(* full statement:  forall c, spec_ok c (run_case c) = true.
-   Proved for writer op-sequence cases (XW) and builder cases (XB).  For one-flush cases (XF) the
-   model is proved total (WProofs.flush_total) and every write of the flush satisfies the per-write
-   theorems, but acceptance by [spec_flush_ok] (grouping of the drained bodies by metric) is not
-   composed; it is evaluated on every implementation output instead. *)
-Theorem xspec_ok_on_model_partial c : (match c with XF _ _ => False | _ => True end) ->
-  spec_ok c (run_case c) = true.
+Theorem xspec_ok_on_model c : spec_ok c (run_case c) = true.
 Proof.
-  destruct c as [c | ops | f ms]; intros H; [| |destruct H]; cbn [spec_ok run_case].
+  destruct c as [c | ops | f ms]; cbn [spec_ok run_case].
   - apply spec_ok_on_model.
   - apply spec_builder_ok_on_model.
+  - apply spec_flush_ok_on_model.
 Qed.
